@@ -119,14 +119,17 @@ Inductive signer := SgNone | SgDigest | SgKey (material : N) (locator : name).
 Definition ckey := (name * name)%type.                                   (* (key name, key locator) *)
 Definition ckey_eqb (a b : ckey) : bool := name_eqb (fst a) (fst b) && name_eqb (snd a) (snd b).
 
-Record st := mkSt {
+(* what persists / is observable *)
+Record cst := mkC {
   db : tables;                       (* as seen through the connection *)
   disk : tables;                     (* committed *)
   tpm : list (name * N);             (* key files: key name -> private key material *)
-  cache : list (ckey * signer);      (* KeychainSqlite3._signer_cache *)
-  flt : option nat                   (* effects left before the injected failure *)
+  cache : list (ckey * signer)       (* KeychainSqlite3._signer_cache *)
 }.
-Definition init_st : st := mkSt empty_tables empty_tables [] [] None.
+(* ... plus the fault injector: effects left before the injected failure *)
+Record st := mkSt { core : cst; flt : option nat }.
+Definition init_core : cst := mkC empty_tables empty_tables [] [].
+Definition init_st : st := mkSt init_core None.
 
 Definition M (A : Type) := st -> res A * st.
 Definition ret {A} (a : A) : M A := fun s => (Ok a, s).
@@ -136,17 +139,19 @@ Definition mbind {A B} (m : M A) (f : A -> M B) : M B :=
 Notation "'mdo' x <- m ;; k" := (mbind m (fun x => k))
   (at level 200, x pattern, m at level 100, k at level 200, right associativity).
 Notation "m1 >> m2" := (mbind m1 (fun _ => m2)) (at level 190, right associativity).
-Definition lift {A} (r : res A) : M A := fun s => (r, s).
-Definition reads {A} (f : tables -> A) : M A := fun s => (Ok (f (db s)), s).
-Definition readr {A} (f : tables -> res A) : M A := fun s => (f (db s), s).
+(* a read of the core state / an update of it (neither is a fault point) *)
+Definition getc {A} (f : cst -> res A) : M A := fun s => (f (core s), s).
+Definition updc (f : cst -> cst) : M unit := fun s => (Ok tt, mkSt (f (core s)) (flt s)).
+Definition reads {A} (f : tables -> A) : M A := getc (fun c => Ok (f (db c))).
+Definition readr {A} (f : tables -> res A) : M A := getc (fun c => f (db c)).
 Definition mwhen (b : bool) (m : M unit) : M unit := if b then m else ret tt.
 Fixpoint mfor {A} (l : list A) (f : A -> M unit) : M unit :=
   match l with [] => ret tt | x :: r => f x >> mfor r f end.
 
-Definition set_db (t : tables) (s : st) : st := mkSt t (disk s) (tpm s) (cache s) (flt s).
-Definition set_tpm (x : list (name * N)) (s : st) : st := mkSt (db s) (disk s) x (cache s) (flt s).
-Definition set_cache (c : list (ckey * signer)) (s : st) : st := mkSt (db s) (disk s) (tpm s) c (flt s).
-Definition set_flt (f : option nat) (s : st) : st := mkSt (db s) (disk s) (tpm s) (cache s) f.
+Definition set_db (t : tables) (c : cst) : cst := mkC t (disk c) (tpm c) (cache c).
+Definition set_tpm (x : list (name * N)) (c : cst) : cst := mkC (db c) (disk c) x (cache c).
+Definition set_cache (x : list (ckey * signer)) (c : cst) : cst := mkC (db c) (disk c) (tpm c) x.
+Definition set_flt (f : option nat) (s : st) : st := mkSt (core s) f.
 
 Definition tick : M unit := fun s =>
   match flt s with
@@ -155,11 +160,19 @@ Definition tick : M unit := fun s =>
   | None => (Ok tt, s)
   end.
 
+(* One failure per operation: an effect that fails by itself (constraint violation, missing key file)
+   disarms the injector, so the cleanup code that runs afterwards is not failed a second time. *)
+Definition disarm {A} (e : err) : M A := fun s => (Err e, set_flt None s).
 (* conn.execute(<INSERT/UPDATE/DELETE>): a failing statement changes nothing *)
 Definition sql_w (f : tables -> res tables) : M unit :=
-  tick >> (fun s => match f (db s) with Ok t => (Ok tt, set_db t s) | Err e => (Err e, s) end).
-Definition commit : M unit := tick >> (fun s => (Ok tt, mkSt (db s) (db s) (tpm s) (cache s) (flt s))).
-Definition rollback (s : st) : st := set_db (disk s) s.
+  tick >> fun s => match f (db (core s)) with
+                   | Ok t => updc (set_db t) s
+                   | Err e => disarm e s
+                   end.
+Definition do_commit (c : cst) : cst := mkC (db c) (db c) (tpm c) (cache c).
+Definition do_rollback (c : cst) : cst := set_db (disk c) c.
+Definition commit : M unit := tick >> updc do_commit.
+Definition rollback (s : st) : st := mkSt (do_rollback (core s)) (flt s).
 (* "with self.conn: body" — commit on success, rollback on exception (also when the commit raises) *)
 Definition with_conn {A} (body : M A) : M A := fun s =>
   match body s with
@@ -169,23 +182,23 @@ Definition with_conn {A} (body : M A) : M A := fun s =>
                   end
   | (Err e, s1) => (Err e, rollback s1)
   end.
-(* try: body / except Exception: handler; throw *)
+(* try: body / except Exception: handler; raise *)
 Definition on_error {A} (body : M A) (handler : M unit) : M A := fun s =>
   match body s with
   | (Ok a, s1) => (Ok a, s1)
   | (Err e, s1) => match handler s1 with (Ok _, s2) => (Err e, s2) | (Err e', s2) => (Err e', s2) end
   end.
 
-Definition tpm_exists (k : name) : M bool := fun s => (Ok (al_mem name_eqb (tpm s) k), s).
+Definition tpm_exists (k : name) : M bool := getc (fun c => Ok (al_mem name_eqb (tpm c) k)).
 Definition tpm_save (k : name) (m : N) : M unit :=
-  tick >> (fun s => (Ok tt, set_tpm (al_set name_eqb (tpm s) k m) s)).
+  tick >> updc (fun c => set_tpm (al_set name_eqb (tpm c) k m) c).
 (* os.remove; FileNotFoundError is swallowed *)
 Definition tpm_delete (k : name) : M unit :=
-  tick >> (fun s => (Ok tt, set_tpm (al_del name_eqb (tpm s) k) s)).
+  tick >> updc (fun c => set_tpm (al_del name_eqb (tpm c) k) c).
 (* TpmFile.get_signer: KeyError when the file does not exist *)
 Definition tpm_read (k : name) : M N :=
-  tick >> (fun s => match al_get name_eqb (tpm s) k with Some m => (Ok m, s) | None => (Err EKey, s) end).
-Definition cache_reset : M unit := fun s => (Ok tt, set_cache [] s).
+  tick >> fun s => match al_get name_eqb (tpm (core s)) k with Some m => ret m s | None => disarm EKey s end.
+Definition cache_reset : M unit := updc (set_cache []).
 
 (* ---------------------------------------------------------------------------------------------- *)
 (* Public methods                                                                                   *)
@@ -214,7 +227,7 @@ Definition generate_key (idn : name) (ktype : N) (ks : kidspec) (material : N) :
   if 2 <=? ktype then throw EValue else
   mdo kid <- (match ks with
               | KidExplicit c => ret c
-              | KidRandom cands => fun s => (pick_kid idn cands (tpm s), s)
+              | KidRandom cands => getc (fun c => pick_kid idn cands (tpm c))
               end) ;;
   let kn := idn ++ [C_KEY; kid] in
   mdo ex <- tpm_exists kn ;;
@@ -316,17 +329,18 @@ Definition get_signer (a : sign_args) : M rv :=
              end) ;;
   let '(kn, cn) := kc in
   let loc := match a_locator a with Some l => l | None => cn end in
-  mdo hit <- (fun s => (Ok (al_get ckey_eqb (cache s) (kn, loc)), s)) ;;
+  mdo hit <- getc (fun c => Ok (al_get ckey_eqb (cache c) (kn, loc))) ;;
   match hit with
   | Some g => ret (RSigner g)
   | None =>
       mdo m <- tpm_read kn ;;
       let g := SgKey m loc in
-      (fun s => (Ok tt, set_cache (al_set ckey_eqb (cache s) (kn, loc) g) s)) >> ret (RSigner g)
+      updc (fun c => set_cache (al_set ckey_eqb (cache c) (kn, loc) g) c) >> ret (RSigner g)
   end.
 
 (* shutdown() + KeychainSqlite3(path, TpmFile(dir)) *)
-Definition reopen : M rv := fun s => (Ok RNone, mkSt (disk s) (disk s) (tpm s) [] (flt s)).
+Definition do_reopen (c : cst) : cst := mkC (disk c) (disk c) (tpm c) [].
+Definition reopen : M rv := updc do_reopen >> ret RNone.
 
 (* ---------------------------------------------------------------------------------------------- *)
 (* Operations and histories                                                                         *)
@@ -365,11 +379,13 @@ Definition op_sem (o : op) : M rv :=
   | OReopen => reopen
   end.
 
-(* one operation, optionally with a storage failure at its (k+1)-th effect *)
-Definition run_op (fault : option nat) (o : op) (s : st) : res rv * st :=
-  let (r, s') := op_sem o (set_flt fault s) in (r, set_flt None s').
-Definition step (s : st) (fo : option nat * op) : st := snd (run_op (fst fo) (snd fo) s).
-Definition run (h : list (option nat * op)) : st := fold_left step h init_st.
+(* one operation, optionally with a storage failure at its (k+1)-th effect; between operations only the
+   core state exists *)
+Definition run_op (fault : option nat) (o : op) (c : cst) : res rv * cst :=
+  let (r, s') := op_sem o (mkSt c fault) in (r, core s').
+Definition step (c : cst) (fo : option nat * op) : cst := snd (run_op (fst fo) (snd fo) c).
+Definition run_from (c : cst) (h : list (option nat * op)) : cst := fold_left step h c.
+Definition run (h : list (option nat * op)) : cst := run_from init_core h.
 
 (* ---------------------------------------------------------------------------------------------- *)
 (* What an observer sees through the public API (used by the correspondence check)                   *)
@@ -401,7 +417,7 @@ Definition observe_ident (t : tables) (n : name) : option oident :=
               (flat_map (fun kn => match observe_key t i kn with Some k => [k] | None => [] end) ks)
               (opt_name (v_default (r_id i) (t_keys t))))
   end.
-Definition observe (s : st) : obs :=
+Definition observe (s : cst) : obs :=
   let t := db s in
   mkObs (v_len 0 (t_ids t))
         (flat_map (fun n => match observe_ident t n with Some i => [i] | None => [] end) (v_iter 0 (t_ids t)))
